@@ -421,6 +421,39 @@ def keepAll : Policy := fun i ds => .group i ds
 def record (v : Variant) (o : Opts) (startClock : Nat) (t : Tree) : DNode :=
   (recTree v (summarize v o) t (rootCursor startClock)).1
 
+/-! ### the edge totals `gen_stat.c` reports for a contracted DAG (tree-level account)
+
+`dr_calc_edges` adds the logical edge counts of every collapsed section / task and counts the
+explicit edges; the explicit edges are those `dr_pi_dag_enum_edges` emits for the materialised
+sections / tasks: one edge from every non-last child to its successor and, for every create
+node of a materialised section, a `create` and an `end` edge. -/
+
+/-- the explicit edge from a non-last child of this kind to its successor -/
+def contOf : NKind → EC
+  | .createTask => ⟨0, 0, 1, 0, 0⟩
+  | .other => ⟨0, 0, 0, 0, 1⟩
+  | .section => ⟨0, 0, 0, 1, 0⟩
+  | _ => {}
+
+/-- the explicit `create` and `end` edges of a create node of a materialised section -/
+def createOwn (pk ck : NKind) : EC :=
+  if pk = .section ∧ ck = .createTask then ⟨1, 1, 0, 0, 0⟩ else {}
+
+def DList.isNil : DList → Bool
+  | .nil => true
+  | .cons _ _ => false
+
+mutual
+/-- edges reported for the subgraph below a node: logical counts of collapsed nodes plus explicit edges -/
+def totN : DNode → EC
+  | .ival _ => {}
+  | .create _ ch => totN ch
+  | .group i ds => if ds.isNil then i.c.ec else totL i.c.kind ds
+def totL (pk : NKind) : DList → EC
+  | .nil => {}
+  | .cons d r => totN d + createOwn pk d.info.c.kind + (if r.isNil then {} else contOf d.info.c.kind) + totL pk r
+end
+
 /-! ### the flat interval list and the independent specification of the totals -/
 
 /-- one recorded interval: kind and raw stamps -/
